@@ -53,6 +53,14 @@ type ModLoc struct {
 	Idx    int
 }
 
+// CaseSpec: prove hard obligations by enumerating the masked bits of an input expression.
+type CaseSpec struct {
+	Expr string
+	Mask uint64
+	Fn   string
+	Ty   string
+}
+
 type Split struct {
 	Name   string
 	Lo, Hi int
@@ -88,6 +96,7 @@ type Contract struct {
 	Trusted  bool // contract is assumed, body not verified (listed in assumptions)
 	Bounded  string
 	Variadic bool
+	Cases    []*CaseSpec
 	// SplitPaths: explore the function's own branches one decision at a time (no merging)
 	SplitPaths bool
 
@@ -123,7 +132,7 @@ type PkgContracts struct {
 	Assumes     []string
 }
 
-var kwRe = regexp.MustCompile(`^(func|props|requires|ensures|modifies|loop|invariant|decreases|split|paths|transparent|opaque|end|trusted|bounded)\b`)
+var kwRe = regexp.MustCompile(`^(func|props|requires|ensures|modifies|loop|invariant|decreases|split|paths|cases|transparent|opaque|end|trusted|bounded)\b`)
 
 // ParseDir parses the contract file of one package directory (nil if none).
 func ParseDir(dir, pkgPath string) (*PkgContracts, error) {
@@ -228,6 +237,17 @@ func ParseDir(dir, pkgPath string) (*PkgContracts, error) {
 				lastClause = nil
 			case "paths":
 				cur.SplitPaths = true
+				lastClause = nil
+			case "cases":
+				k := strings.LastIndex(rest, " bits ")
+				if k < 0 {
+					return nil, fmt.Errorf("%s:%d: bad cases clause (want: cases <expr> bits <mask>)", path, i+1)
+				}
+				var m uint64
+				if _, err := fmt.Sscanf(strings.TrimSpace(rest[k+6:]), "%v", &m); err != nil {
+					return nil, fmt.Errorf("%s:%d: bad mask in cases clause", path, i+1)
+				}
+				cur.Cases = append(cur.Cases, &CaseSpec{Expr: strings.TrimSpace(rest[:k]), Mask: m})
 				lastClause = nil
 			case "bounded":
 				cur.Bounded = rest
@@ -758,6 +778,9 @@ func (c *Contract) prepare() error {
 			}
 			lp.Dec.Func = fmt.Sprintf("__dec_%s_L%d", c.ID, lp.Ordinal)
 		}
+	}
+	for k, cs := range c.Cases {
+		cs.Fn = fmt.Sprintf("__case_%s_%d", c.ID, k)
 	}
 	// modifies
 	for _, mc := range c.modClauses {
